@@ -19,10 +19,11 @@ type c09Op struct {
 }
 
 type c09Case struct {
-	Profiles []string `json:"profiles"`
-	Docs     []string `json:"docs"`
-	DocKinds []string `json:"doc_kinds"`
-	Ops      []c09Op  `json:"ops"`
+	Profiles     []string `json:"profiles"`
+	Docs         []string `json:"docs"`
+	DocKinds     []string `json:"doc_kinds"`
+	Ops          []c09Op  `json:"ops"`
+	FreshProcess bool     `json:"fresh_process"`
 }
 
 func genProfileAndGraphs(t *rapid.T, name string, nGraphs int) (string, []*m.Graph, *m.Profile) {
@@ -61,8 +62,21 @@ func genC09(t *rapid.T) c09Case {
 		text, graphs, _ := genProfileAndGraphs(t, fmt.Sprintf("c09-%d", i), rapid.IntRange(1, 3).Draw(t, "graphs"))
 		c.Profiles = append(c.Profiles, text)
 		for _, g := range graphs {
-			c.Docs = append(c.Docs, g.JSONLD(genLDOpts(t, len(g.Nodes))))
-			c.DocKinds = append(c.DocKinds, "graph")
+			switch rapid.IntRange(0, 3).Draw(t, "lexical") {
+			case 0: // with lexical source maps; the root location is unique to this case so that state leaking between calls shows
+				sm := genSourceMaps(t, g)
+				sm.Root = fmt.Sprintf("file:///root-%d-%d.raml", i, rapid.IntRange(0, 1<<30).Draw(t, "rootToken"))
+				c.Docs = append(c.Docs, sm.Attach(g).JSONLD(genLDOpts(t, 0)))
+				c.DocKinds = append(c.DocKinds, "graph+sourcemaps")
+			case 1: // source maps without the BaseUnitSourceInformation node
+				sm := genSourceMaps(t, g)
+				sm.NoBase = true
+				c.Docs = append(c.Docs, sm.Attach(g).JSONLD(genLDOpts(t, 0)))
+				c.DocKinds = append(c.DocKinds, "graph+sourcemaps-without-base")
+			default:
+				c.Docs = append(c.Docs, g.JSONLD(genLDOpts(t, len(g.Nodes))))
+				c.DocKinds = append(c.DocKinds, "graph")
+			}
 		}
 	}
 	for _, extra := range []struct{ kind, text string }{{"empty", "[]"}, {"unreadable", "{\"@id\": "}, {"jsonld-rejects", `[{"@id":5}]`}} {
@@ -71,6 +85,7 @@ func genC09(t *rapid.T) c09Case {
 			c.DocKinds = append(c.DocKinds, extra.kind)
 		}
 	}
+	c.FreshProcess = rapid.IntRange(0, 5).Draw(t, "freshProcess") == 0
 	n := rapid.IntRange(3, 20).Draw(t, "ops")
 	for i := 0; i < n; i++ {
 		op := c09Op{Profile: rapid.IntRange(0, np-1).Draw(t, "p"), Doc: rapid.IntRange(0, len(c.Docs)-1).Draw(t, "d"), WithCfg: rapid.IntRange(0, 3).Draw(t, "cfg") != 0}
@@ -110,16 +125,37 @@ func decideC09(c c09Case) ev.Verdict {
 		qs[i] = q
 	}
 	type key struct{ p, d int }
+	// the references are taken before the history starts (a reference computed in the middle of the history could
+	// inherit state leaked by the calls made so far), each by a fresh validation of the profile text
 	ref := map[key]call{}
-	fresh := func(k key) call {
-		if r, ok := ref[k]; ok {
-			return r
+	for p := range c.Profiles {
+		for d := range c.Docs {
+			ref[key{p, d}] = validateFixed(c.Profiles[p], c.Docs[d])
 		}
-		r := validateFixed(c.Profiles[k.p], c.Docs[k.d])
-		ref[k] = r
-		return r
 	}
+	fresh := func(k key) call { return ref[k] }
 	v := ev.Verdict{OK: true}
+	// a sample of the references is confirmed in a fresh process each, where nothing can have leaked
+	if c.FreshProcess {
+		n := 0
+		for p := range c.Profiles {
+			for d := range c.Docs {
+				r := ref[key{p, d}]
+				if r.failed() || n >= 4 {
+					continue
+				}
+				n++
+				out, err := freshProcessReport(c06Case{Profile: c.Profiles[p], Data: c.Docs[d]}, n)
+				if err != nil {
+					return ev.Verdict{Discard: true, Detail: err.Error(), Obs: map[string]int{"helper_failures": 1}}
+				}
+				if dropDate(out) != dropDate(r.Report) {
+					return ev.Violation("c09-in-process-differs-from-fresh-process", "validating profile %d / document %d (%s) in this long-lived process differs from a fresh process\n%s", p, d, c.DocKinds[d], firstDiff(dropDate(out), dropDate(r.Report)))
+				}
+			}
+		}
+		v.Labels = append(v.Labels, "confirmed-in-fresh-processes")
+	}
 	sawFailThenPass, sawErrThenOK, sawRepeat := false, false, false
 	prevKind := ""
 	for i, op := range c.Ops {
